@@ -279,7 +279,7 @@ def r5_default_election(ctx):
     m = next((re.fullmatch(r"not truthy\((\w+)\)", l) for l in lits if re.fullmatch(r"not truthy\((\w+)\)", l)), None)
     if m:
         dv = astx.unique_def(f.node, m.group(1))
-        good = isinstance(dv, ast.ListComp) and astx.u(dv.generators[0].iter).endswith(".scores.items()") and len(dv.generators[0].ifs) == 1
+        good = isinstance(dv, astx.LCOMP) and astx.u(dv.generators[0].iter).endswith(".scores.items()") and len(dv.generators[0].ifs) == 1
         ctx.check(bool(good), f, dv or f.node, "threshold test ranges over all current tallies", astx.u(dv)[:90] if dv is not None else "",
                   "the list of above-threshold candidates is not a filter over prev_state.scores.items()")
     # it returns the empty profile and eliminates nobody
